@@ -579,3 +579,24 @@ def check_homogeneous(ck, F, S):
         good = good and seen_cases == {True, False}
         ck.check(R, contracts.short(f['parent']) + '::operator[]', good,
                  f'singleton overload selects {rs}', loc=f['loc'], fn=f['id'])
+
+
+def scope_keys(ck, F, prefix):
+    """The KEY obligations of the tables a scope keeps (overload sets by name, entries by type), for a property that needs what a
+    scope answered once to be answered again."""
+    makers = [f for f in F.fns_in('ipr::impl::Scope') if f['name'].startswith('make_') and f.get('body') is not None]
+    if len(makers) < 8:
+        raise AnalysisBroken(f'only {len(makers)} Scope::make_* functions found')
+    K = keyrule.KeyChecker(ck, F, prefix)
+    mv = [f for f in makers if f['name'] == 'make_var'][0]
+    for f in sorted(makers, key=lambda f: f['id']):
+        K.factory(f)
+    sub = F.need_fn('ipr::impl::Scope::operator[](const ipr::Name &) const')
+    K.factory(mv, second=sub, this2=lambda st, v: ('sym', 'this'))
+    K.finish_cover()
+    K.finish_partial((('ipr::impl::Scope::make_alias(', 1, 'an alias is declared with the type of its initializer: the entry is keyed by that type'),))
+    for r in (K.R_diag, K.R_lex):
+        ck.rules[r]['floor'] = 9
+    ck.rules[K.R_cover]['floor'] = 8
+    ck.rules[K.R_atom]['floor'] = 1
+    ck.rules[K.R_guard]['floor'] = 8
